@@ -7,6 +7,7 @@ import (
 	"fmt"
 	"sort"
 	"go/constant"
+	"go/token"
 	"go/types"
 	"strings"
 
@@ -718,10 +719,21 @@ func (env *SpecEnv) call(e *SExpr) (SpecVal, error) {
 		}
 		cur := x.getSV(name, so)
 		ini := x.init[name]
+		iniAlloc := x.init["alloc"]
+		if env.old != nil {
+			// in a callee's contract applied at a call the reference state is the state
+			// before the call, not the caller's own entry state
+			if t, ok := env.old[name]; ok {
+				ini = t
+			}
+			if a, ok := env.old["alloc"]; ok {
+				iniAlloc = a
+			}
+		}
 		if cur == ini {
 			return SpecVal{V: tv("true"), Go: boolT}, nil
 		}
-		return SpecVal{V: tv(fmt.Sprintf("(forall ((r Int)) (=> (and (<= 0 r) (< r %s)) (= (select %s r) (select %s r))))", x.init["alloc"], cur, ini)), Go: boolT}, nil
+		return SpecVal{V: tv(fmt.Sprintf("(forall ((r Int)) (=> (and (<= 0 r) (< r %s)) (= (select %s r) (select %s r))))", iniAlloc, cur, ini)), Go: boolT}, nil
 	case "visited":
 		// visited(k): key k has already been produced by the map iteration of the loop
 		// whose invariant is being evaluated
@@ -986,6 +998,15 @@ func (x *Exec) specEnvAt(b *ssa.BasicBlock, rp *retPoint) *SpecEnv {
 			}
 		}
 		for _, h := range hs {
+			// rangechan: the channel a `for v := range <expression>` loop receives from,
+			// when the expression has no name of its own (innermost such loop)
+			for _, ins := range h.Instrs {
+				if u, ok := ins.(*ssa.UnOp); ok && u.Op == token.ARROW && u.CommaOk {
+					if v, ok := x.vals[u.X]; ok {
+						env.vars["rangechan"] = SpecVal{V: v, Go: u.X.Type()}
+					}
+				}
+			}
 			for _, ins := range h.Instrs {
 				phi, ok := ins.(*ssa.Phi)
 				if !ok {
